@@ -2,9 +2,16 @@
    mechanism (undo_bytes hands back every whole byte still in the bit buffer, leaving fewer
    than 8 bits, whenever at least that many bytes were consumed in this call).  The statement
    that the bit buffer holds exactly the look-ahead bytes (relation R of DESIGN.md 4.2) is
-   open; the property is decided per explored run by the specification's exact encoded length. *)
-From Coq Require Import NArith Lia.
+   open; the property is decided per explored run by the specification's exact encoded length.
+   Proved for streams of stored blocks (raw and zlib-framed) followed by ARBITRARY further bytes, decoded
+   in one call into a flat buffer with room: the reported input count is exactly the encoded length of
+   the stream (header and trailer included), never a byte of what follows. *)
+From Coq Require Import NArith ZArith List Bool Lia.
+From MZ.lib Require Import Arr Mach.
+From MZ.spec Require Import Adler Zlib.
 From MZ.model Require Import InflateCore.
+From MZ.proofs Require Import StoredSpec InflateStoredZ.
+Import ListNotations.
 Local Open Scope N_scope.
 
 Lemma undo_bytes_spec nbits mx :
@@ -25,3 +32,34 @@ Theorem C06_undo_leaves_less_than_a_byte :
   fst (undo_bytes nbits mx) = N.shiftr nbits 3 /\ snd (undo_bytes nbits mx) < 8 /\
   snd (undo_bytes nbits mx) = nbits mod 8.
 Proof. exact undo_bytes_spec. Qed.
+
+Theorem C06_stored_streams_consumed_exactly_partial :
+  (forall flags chunks last extra o res,
+   has flags F_ZLIB = false -> has flags F_STOPBB = false -> has flags F_NONWRAP = true ->
+   chunks_ok chunks -> bytes_ok last -> N.of_nat (length last) <= 65535 ->
+   N.of_nat (length (concat chunks ++ last)) <= alen o -> alen o <= USIZE_MAX ->
+   let stream := stored_stream chunks last in
+   decompress dec_default (stream ++ extra) o 0 USIZE_MAX flags = Ret res ->
+   cr_status res = Done /\ cr_in res = N.of_nat (length stream) /\
+   cr_out res = N.of_nat (length (concat chunks ++ last)) /\
+   aget_list (cr_buf res) 0 (cr_out res) = concat chunks ++ last) /\
+  (forall flags cmf flg A chunks last extra o res,
+   has flags F_ZLIB = true -> has flags F_STOPBB = false -> has flags F_NONWRAP = true ->
+   cmf < 256 -> flg < 256 -> valid_header (Z.of_N cmf) (Z.of_N flg) = true -> A < 2 ^ 32 ->
+   chunks_ok chunks -> bytes_ok last -> N.of_nat (length last) <= 65535 ->
+   N.of_nat (length (concat chunks ++ last)) <= alen o -> alen o <= USIZE_MAX ->
+   let stream := cmf :: flg :: stored_stream chunks last ++ be32 A in
+   decompress dec_default (stream ++ extra) o 0 USIZE_MAX flags = Ret res ->
+   cr_status res = (if has flags F_IGNORE || (adler32 1 (concat chunks ++ last) =? A) then Done else Adler32Mismatch) /\
+   cr_in res = N.of_nat (length stream) /\
+   cr_out res = N.of_nat (length (concat chunks ++ last)) /\
+   aget_list (cr_buf res) 0 (cr_out res) = concat chunks ++ last).
+Proof. split; [exact decompress_raw_stored_stream_extra|exact decompress_zlib_stored_stream_extra]. Qed.
+
+(* non-vacuity: a raw two-block stream followed by three further bytes: 15 of the 18 bytes are consumed *)
+Example C06_trailing_bytes_left_alone :
+  match decompress dec_default (stored_stream [[1; 2; 3]] [4; 5] ++ [255; 0; 255]) (amake 5 0) 0 USIZE_MAX 4 with
+  | Ret res => cr_status res = Done /\ cr_in res = 15 /\ aget_list (cr_buf res) 0 5 = [1; 2; 3; 4; 5]
+  | _ => False
+  end.
+Proof. vm_compute. repeat split; reflexivity. Qed.
